@@ -100,75 +100,87 @@ def avxPlanBluesteins (ty : ElemTy) (len : Nat) : Except String Nat :=
   | some c => .ok c.1
   | none => .error "plan_bluesteins: Failed to find a bluestein's candidate"
 
-/-- `plan_mixed_radix_base` (both element types; the differences are exactly the tables below) -/
+/-- first branch of `plan_mixed_radix_base`: the length has a factor other than 2, 3, 5, 7, 11 -/
+def avxBaseOther (ty : ElemTy) (avx2 : Bool) (len other : Nat) : Except String AvxPlan :=
+  if avxIsButterfly ty other then .ok (AvxPlan.butterfly other []) else
+  let inner := PartialFactors.compute (other - 1)
+  if isPrimeNat other ∧ avxIsButterfly ty inner.other ∧ (avx2 ∨ inner.productP2P3 = len - 1) then
+    .ok (AvxPlan.mk' (.raders other) [])
+  else
+    match avxPlanBluesteins ty other with
+    | .ok m => .ok (AvxPlan.mk' (.bluesteins other m) [])
+    | .error e => .error e
+
+/-- the `hardcoded_base` tables -/
+def avxHardcoded (ty : ElemTy) (p23 : Nat) : Option AvxPlan :=
+  match ty with
+  | .f32 =>
+    if p23 = 96 then some (AvxPlan.butterfly 32 [3]) else
+    if p23 = 192 then some (AvxPlan.butterfly 48 [4]) else
+    if p23 = 1536 then some (AvxPlan.butterfly 48 [8, 4]) else
+    if p23 = 18 then some (AvxPlan.butterfly 3 [6]) else
+    if p23 = 144 then some (AvxPlan.butterfly 36 [4]) else none
+  | _ =>
+    if p23 = 64 then some (AvxPlan.butterfly 16 [4]) else
+    if p23 = 48 then some (AvxPlan.butterfly 12 [4]) else
+    if p23 = 96 then some (AvxPlan.butterfly 12 [8]) else
+    if p23 = 768 then some (AvxPlan.butterfly 12 [8, 8]) else
+    if p23 = 72 then some (AvxPlan.butterfly 24 [3]) else
+    if p23 = 288 then some (AvxPlan.butterfly 32 [9]) else
+    if p23 = 108 then some (AvxPlan.butterfly 18 [6]) else none
+
+/-- the f32 heuristics after the hard-coded table: `(base butterfly, radixes)` or `none` = "Couldn't find a base" -/
+def avxHeuristic32 (len : Nat) (f : PartialFactors) : Option (Nat × List Nat) :=
+  if f.p2 ≥ 5 then
+    match f.p3 with
+    | 0 => some (match f.p2 % 3 with | 0 => (512, []) | _ => (256, []))
+    | 1 => some (match f.p2 % 3 with | 0 => (64, [12, 16]) | 1 => (48, []) | _ => (64, []))
+    | _ => some (72, [])
+  else if f.p3 ≥ 3 then
+    match f.p2 with
+    | 0 => some (27, [])
+    | 1 => some (54, [])
+    | 2 => some (if f.p3 % 2 = 0 then (36, []) else ((if len < 1000 then 36 else 12), []))
+    | 3 => some (if f.p3 % 2 = 0 then (72, []) else ((if f.p3 > 7 then 24 else 72), []))
+    | 4 => some (if f.p3 % 2 = 0 then ((if f.p3 > 6 then 16 else 72), []) else ((if f.p3 > 9 then 48 else 72), []))
+    | _ => some (72, [])
+  else if f.p11 > 0 then some (11, [])
+  else if f.p7 > 0 then some (7, [])
+  else if f.p5 > 0 then some (5, [])
+  else none
+
+/-- the f64 heuristics after the hard-coded table -/
+def avxHeuristic64 (f : PartialFactors) : Option (Nat × List Nat) :=
+  if f.p2 ≥ 4 then
+    match f.p3 with
+    | 0 => some (match f.p2 % 3 with | 0 => (512, []) | 1 => (128, []) | _ => (256, []))
+    | 1 => some (match f.p2 % 3 with | 0 => (24, []) | 1 => (32, [12]) | _ => (32, [12, 16]))
+    | 2 => some (match f.p2 % 3 with | 0 => (36, [16]) | 1 => (36, []) | _ => (18, []))
+    | _ => some (36, [])
+  else if f.p3 ≥ 3 then
+    match f.p2 with
+    | 0 => some (if f.p3 % 2 = 0 then ((if f.p3 > 10 then 9 else 27), []) else (27, []))
+    | 1 => some (18, [])
+    | 2 => some (if f.p3 % 2 = 0 then (36, []) else ((if f.p3 > 10 then 36 else 18), []))
+    | 3 => some (18, [])
+    | _ => some (36, [])
+  else if f.p11 > 0 then some (11, [])
+  else if f.p7 > 0 then some (7, [])
+  else if f.p5 > 0 then some (5, [])
+  else none
+
+/-- `plan_mixed_radix_base` (both element types; the differences are exactly the tables above) -/
 def avxPlanBase (ty : ElemTy) (avx2 : Bool) (len : Nat) (f : PartialFactors) : Except String AvxPlan :=
-  if f.other > 1 then
-    let other := f.other
-    if avxIsButterfly ty other then .ok (AvxPlan.butterfly other []) else
-    let inner := PartialFactors.compute (other - 1)
-    if isPrimeNat other ∧ avxIsButterfly ty inner.other ∧ (avx2 ∨ inner.productP2P3 = len - 1) then
-      .ok (AvxPlan.mk' (.raders other) [])
-    else
-      match avxPlanBluesteins ty other with
-      | .ok m => .ok (AvxPlan.mk' (.bluesteins other m) [])
-      | .error e => .error e
+  if f.other > 1 then avxBaseOther ty avx2 len f.other
   else if avxIsButterfly ty len then .ok (AvxPlan.butterfly len []) else
   let p23 := f.productP2P3
   if p23 > 4 ∧ avxIsButterfly ty p23 then .ok (AvxPlan.butterfly p23 []) else
-  match ty with
-  | .f32 =>
-    if p23 = 96 then .ok (AvxPlan.butterfly 32 [3]) else
-    if p23 = 192 then .ok (AvxPlan.butterfly 48 [4]) else
-    if p23 = 1536 then .ok (AvxPlan.butterfly 48 [8, 4]) else
-    if p23 = 18 then .ok (AvxPlan.butterfly 3 [6]) else
-    if p23 = 144 then .ok (AvxPlan.butterfly 36 [4]) else
-    if f.p2 ≥ 5 then
-      match f.p3 with
-      | 0 => .ok (match f.p2 % 3 with | 0 => AvxPlan.butterfly 512 [] | _ => AvxPlan.butterfly 256 [])
-      | 1 => .ok (match f.p2 % 3 with
-                  | 0 => AvxPlan.butterfly 64 [12, 16] | 1 => AvxPlan.butterfly 48 [] | _ => AvxPlan.butterfly 64 [])
-      | _ => .ok (AvxPlan.butterfly 72 [])
-    else if f.p3 ≥ 3 then
-      match f.p2 with
-      | 0 => .ok (AvxPlan.butterfly 27 [])
-      | 1 => .ok (AvxPlan.butterfly 54 [])
-      | 2 => .ok (if f.p3 % 2 = 0 then AvxPlan.butterfly 36 [] else AvxPlan.butterfly (if len < 1000 then 36 else 12) [])
-      | 3 => .ok (if f.p3 % 2 = 0 then AvxPlan.butterfly 72 [] else AvxPlan.butterfly (if f.p3 > 7 then 24 else 72) [])
-      | 4 => .ok (if f.p3 % 2 = 0 then AvxPlan.butterfly (if f.p3 > 6 then 16 else 72) []
-                  else AvxPlan.butterfly (if f.p3 > 9 then 48 else 72) [])
-      | _ => .ok (AvxPlan.butterfly 72 [])
-    else if f.p11 > 0 then .ok (AvxPlan.butterfly 11 [])
-    else if f.p7 > 0 then .ok (AvxPlan.butterfly 7 [])
-    else if f.p5 > 0 then .ok (AvxPlan.butterfly 5 [])
-    else .error "plan_mixed_radix_base: Couldn't find a base"
-  | _ =>
-    if p23 = 64 then .ok (AvxPlan.butterfly 16 [4]) else
-    if p23 = 48 then .ok (AvxPlan.butterfly 12 [4]) else
-    if p23 = 96 then .ok (AvxPlan.butterfly 12 [8]) else
-    if p23 = 768 then .ok (AvxPlan.butterfly 12 [8, 8]) else
-    if p23 = 72 then .ok (AvxPlan.butterfly 24 [3]) else
-    if p23 = 288 then .ok (AvxPlan.butterfly 32 [9]) else
-    if p23 = 108 then .ok (AvxPlan.butterfly 18 [6]) else
-    if f.p2 ≥ 4 then
-      match f.p3 with
-      | 0 => .ok (match f.p2 % 3 with
-                  | 0 => AvxPlan.butterfly 512 [] | 1 => AvxPlan.butterfly 128 [] | _ => AvxPlan.butterfly 256 [])
-      | 1 => .ok (match f.p2 % 3 with
-                  | 0 => AvxPlan.butterfly 24 [] | 1 => AvxPlan.butterfly 32 [12] | _ => AvxPlan.butterfly 32 [12, 16])
-      | 2 => .ok (match f.p2 % 3 with
-                  | 0 => AvxPlan.butterfly 36 [16] | 1 => AvxPlan.butterfly 36 [] | _ => AvxPlan.butterfly 18 [])
-      | _ => .ok (AvxPlan.butterfly 36 [])
-    else if f.p3 ≥ 3 then
-      match f.p2 with
-      | 0 => .ok (if f.p3 % 2 = 0 then AvxPlan.butterfly (if f.p3 > 10 then 9 else 27) [] else AvxPlan.butterfly 27 [])
-      | 1 => .ok (AvxPlan.butterfly 18 [])
-      | 2 => .ok (if f.p3 % 2 = 0 then AvxPlan.butterfly 36 [] else AvxPlan.butterfly (if f.p3 > 10 then 36 else 18) [])
-      | 3 => .ok (AvxPlan.butterfly 18 [])
-      | _ => .ok (AvxPlan.butterfly 36 [])
-    else if f.p11 > 0 then .ok (AvxPlan.butterfly 11 [])
-    else if f.p7 > 0 then .ok (AvxPlan.butterfly 7 [])
-    else if f.p5 > 0 then .ok (AvxPlan.butterfly 5 [])
-    else .error "plan_mixed_radix_base: Couldn't find a base"
+  match avxHardcoded ty p23 with
+  | some p => .ok p
+  | none =>
+    match (match ty with | .f32 => avxHeuristic32 len f | _ => avxHeuristic64 f) with
+    | some (b, rs) => .ok (AvxPlan.butterfly b rs)
+    | none => .error "plan_mixed_radix_base: Couldn't find a base"
 
 /-- the loop of `plan_power12_power6`: `required_sixes[i] = Some(k)` as a function `Fin 4 → Option Nat` in a list -/
 def power12Loop (p2 p3 : Nat) : List Nat → List (Option Nat) → List (Option Nat)
@@ -198,33 +210,38 @@ def avxPower12Power6 (rf : PartialFactors) : Nat × Nat :=
   let p6 := if rf.p2 > 1 ∧ rf.p3 = 1 ∧ p12 = 0 then 1 else p6
   (p12, p6)
 
+/-- the optional leading 16xn step of `plan_mixed_radix` -/
+def avxStep16 (rf : PartialFactors) (plan : AvxPlan) : Except String (PartialFactors × AvxPlan) :=
+  if rf.p2 % 3 = 1 ∧ rf.p2 > 1 then
+    match rf.divideBy (PartialFactors.compute 16) with
+    | none => .error "plan_mixed_radix: divide_by(16).unwrap()"
+    | some rf' => .ok (rf', plan.pushRadix 16)
+  else .ok (rf, plan)
+
+/-- the descending-radix chain pushed by `plan_mixed_radix` -/
+def avxPushChain (rf : PartialFactors) (p12 p6 : Nat) (plan : AvxPlan) : AvxPlan :=
+  let plan := plan.pushRadixPower 12 p12
+  let plan := plan.pushRadixPower 11 rf.p11
+  let plan := plan.pushRadixPower 9 (rf.p3 / 2)
+  let plan := plan.pushRadixPower 8 (rf.p2 / 3)
+  let plan := plan.pushRadixPower 7 rf.p7
+  let plan := plan.pushRadixPower 6 p6
+  let plan := plan.pushRadixPower 5 rf.p5
+  let plan := if rf.p2 % 3 = 2 then plan.pushRadix 4 else plan
+  let plan := if rf.p3 % 2 = 1 then plan.pushRadix 3 else plan
+  let plan := if rf.p2 % 3 = 1 then plan.pushRadix 2 else plan
+  plan
+
 /-- `plan_mixed_radix(radix_factors, plan)` -/
 def avxPlanMixedRadix (rf : PartialFactors) (plan : AvxPlan) : Except String AvxPlan :=
   if [2, 3, 4, 5, 6, 7, 8, 9, 12, 16].contains rf.product then .ok (plan.pushRadix rf.product) else
-  let (p12, p6) := avxPower12Power6 rf
-  match rf.divideBy (PartialFactors.compute (6 ^ p6 * 12 ^ p12)) with
+  let p := avxPower12Power6 rf
+  match rf.divideBy (PartialFactors.compute (6 ^ p.2 * 12 ^ p.1)) with
   | none => .error "plan_mixed_radix: divide_by(6^j*12^k).unwrap()"
   | some rf =>
-    let step16 : Except String (PartialFactors × AvxPlan) :=
-      if rf.p2 % 3 = 1 ∧ rf.p2 > 1 then
-        match rf.divideBy (PartialFactors.compute 16) with
-        | none => .error "plan_mixed_radix: divide_by(16).unwrap()"
-        | some rf' => .ok (rf', plan.pushRadix 16)
-      else .ok (rf, plan)
-    match step16 with
+    match avxStep16 rf plan with
     | .error e => .error e
-    | .ok (rf, plan) =>
-      let plan := plan.pushRadixPower 12 p12
-      let plan := plan.pushRadixPower 11 rf.p11
-      let plan := plan.pushRadixPower 9 (rf.p3 / 2)
-      let plan := plan.pushRadixPower 8 (rf.p2 / 3)
-      let plan := plan.pushRadixPower 7 rf.p7
-      let plan := plan.pushRadixPower 6 p6
-      let plan := plan.pushRadixPower 5 rf.p5
-      let plan := if rf.p2 % 3 = 2 then plan.pushRadix 4 else plan
-      let plan := if rf.p3 % 2 = 1 then plan.pushRadix 3 else plan
-      let plan := if rf.p2 % 3 = 1 then plan.pushRadix 2 else plan
-      .ok plan
+    | .ok (rf, plan) => .ok (avxPushChain rf p.1 p.2 plan)
 
 /-- `replan_with_cache` against a "contains" predicate for the requested direction -/
 def avxReplan (cached : Nat → Bool) (plan : AvxPlan) : AvxPlan :=
